@@ -150,6 +150,8 @@ static bool isDisabled(const Sym &s, unsigned name)
 VP_NOTABLE static bool usable(const Sym &s, Desc d)
 {
     switch (d.fam) {
+    // HT: the stored token is bound to one HT mechanism; variants with TLS channel binding are not supported by this client
+    // (it has no channel-binding data), so only the -NONE variant of the token's hash is usable
     case F_HT: return s.hasHt && s.htHash == d.hash && s.htCb == d.cb && d.cb == CB_NONE;
     case F_SCRAM: case F_DIGEST: case F_PLAIN: return s.password;
     case F_ANON: return true;
